@@ -397,3 +397,6 @@ ASSUMPTIONS = ['default features (no parallel)',
 HYPOTHESES = ['commutative-group laws of the abstract group (A, +, -, 0) (assoc, comm, 0 + x = x, x + (-x) = 0)',
               'the dictionary operations gadd/gmadd/gmsub/gdbl/gzero are homomorphic to that group through an interpretation `den`',
               'hashmap: r * den(P) = 0 for every base (prime-order subgroup) and the base equality test is sound']
+
+# pinned theorems that discharge this package's group-level premises for the concrete C03 curve dictionaries
+EXTRA_PROP_FILES = ['Link']
